@@ -4,6 +4,7 @@ from __future__ import annotations
 
 import ast
 
+from pv.q import text as qtext
 from pv.model import walk_no_nested, UNKNOWN
 from pv.q import has_stmt, find_if, returns
 
@@ -47,10 +48,10 @@ def rule_hmac(model, rep, R):
         body = blk.body if hs[0] in getattr(blk, "body", []) else blk.orelse
         after = body[body.index(hs[0]) + 1:]
         resync = any(ast.unparse(x) in ("klen = digest_size", "klen = len(key)") for x in after)
-        padded_here = any("b'\\x00'" in ast.unparse(x) and ("block_size - digest_size" in ast.unparse(x) or "block_size - len(key)" in ast.unparse(x)) for x in after)
-        pads = [n for n in walk_no_nested(fn) if isinstance(n, (ast.AugAssign, ast.Assign)) and "b'\\x00'" in ast.unparse(n)]
+        padded_here = any("b'\\x00'" in qtext(x) and ("block_size - digest_size" in qtext(x) or "block_size - len(key)" in qtext(x)) for x in after)
+        pads = [n for n in walk_no_nested(fn) if isinstance(n, (ast.AugAssign, ast.Assign)) and qtext(n).loose("b'\\x00'")]
         pad_if = [n for n in walk_no_nested(fn) if isinstance(n, ast.If) and any(x in pads for x in n.body)]
-        pad_uses_len = any("len(key)" in ast.unparse(p_.test) for p_ in pad_if)
+        pad_uses_len = any("len(key)" in qtext(p_.test) for p_ in pad_if)
         reaches_pad = any(p_ in fn.body and blk in fn.body and fn.body.index(blk) < fn.body.index(p_) for p_ in pad_if) if isinstance(blk, ast.If) else False
         ok = padded_here or ((resync or pad_uses_len) and reaches_pad)
         rep.check(ok, R, s, "; ".join(ast.unparse(x) for x in [hs[0]] + after) or ast.unparse(hs[0]),
@@ -104,7 +105,7 @@ def _canon_cmp(t):
 def rule_pbkdf(model, rep, R):
     fn = model.func(D, "pbkdf1")
     s = site("pbkdf1")
-    t = ast.unparse(fn)
+    t = qtext(fn)
     rep.check(has_stmt(fn, "block = secret + salt"), R, s, "block = secret + salt", "PBKDF1 starts from password || salt")
     loop = [n for n in walk_no_nested(fn) if isinstance(n, ast.For)]
     ok = len(loop) == 1 and ast.unparse(loop[0].iter) == "range(rounds)" and [ast.unparse(x) for x in loop[0].body] == ["block = const(block).digest()"]
